@@ -29,7 +29,7 @@ type Base struct {
 	File  *Node
 }
 
-func num(i int) *Node { return lit(fmt.Sprint(i)) }
+func num(i int) *Node    { return lit(fmt.Sprint(i)) }
 func str(s string) *Node { return lit(`"` + s + `"`) }
 
 func leaf(x string, extras []string) []*Node {
